@@ -35,8 +35,8 @@ class C12(BaseCheck):
                  'plus a scan of undecoded trailing bytes for the call id',)
   QUICK_CASES = 1440
   THOROUGH_CASES = 60000
-  QUICK_WALL = 50
-  THOROUGH_WALL = 420
+  QUICK_WALL = 180
+  THOROUGH_WALL = 1800
   MIN_DISTINCT = 10
 
   def run_case(self, env, rng, idx, tier):
